@@ -806,6 +806,11 @@ class Samples(object):
         variables = np.array(self.geometry.variables) #Convert to np array for better slicing
         variables = variables.flatten()
 
+        # One variable name is needed per row of the samples (the geometry names its parameters, so e.g. function
+        # values of an expansion geometry, which has more function values than parameters, cannot be labelled)
+        if len(variables) != self.samples.shape[0]:
+            raise ValueError(f"The geometry provides {len(variables)} variable names but the samples have {self.samples.shape[0]} rows. Cannot compute rhat for these samples.")
+
         # Construct full samples for all chains
         samples = np.empty((self.samples.shape[0], n_chains+1, self.samples.shape[1]))
         samples[:,0,:] = self.samples
